@@ -322,7 +322,7 @@ func init() {
 	noop := func(e *Engine, fc *fnCtx, st *State, c *ssa.CallCommon, a []Val, r types.Type) (Val, bool) {
 		return e.freshVal("ext", r), true
 	}
-	for _, n := range []string{"fmt.Sprintf", "fmt.Sprint", "fmt.Sprintln", "fmt.Printf", "fmt.Println", "fmt.Print", "fmt.Fprintf", "fmt.Fprintln", "fmt.Fprint",
+	for _, n := range []string{"fmt.Sprint", "fmt.Sprintln", "fmt.Printf", "fmt.Println", "fmt.Print", "fmt.Fprintf", "fmt.Fprintln", "fmt.Fprint",
 		"time.Now", "time.Since", "(time.Time).Sub", "(time.Duration).Seconds", "(time.Time).UnixNano", "(time.Time).Unix", "time.Duration.String",
 		"os.IsPermission", "os.IsNotExist", "os.IsExist", "os.Getenv", "strings.Repeat", "strings.Replace", "strings.ReplaceAll", "strings.Title", "strings.Map",
 		"strings.ContainsRune", "strings.ContainsAny", "strings.ContainsFunc", "strconv.Quote", "strconv.FormatInt", "strconv.FormatUint", "strconv.FormatBool",
@@ -484,6 +484,53 @@ func init() {
 			}
 			return v
 		}
+	}
+	// cmp.Compare / cmp.Or
+	H["cmp.Compare"] = func(e *Engine, fc *fnCtx, st *State, c *ssa.CallCommon, a []Val, r types.Type) (Val, bool) {
+		if a[0].S == "String" {
+			return intRes(e, ite("(str.< "+a[0].T+" "+a[1].T+")", "(- 1)", ite(eq(a[0].T, a[1].T), "0", "1")))
+		}
+		if a[0].S == "Int" {
+			return intRes(e, "(sgn (- "+a[0].T+" "+a[1].T+"))")
+		}
+		return Val{}, false
+	}
+	H["cmp.Or"] = func(e *Engine, fc *fnCtx, st *State, c *ssa.CallCommon, a []Val, r types.Type) (Val, bool) {
+		sl, ok := c.Args[0].Type().Underlying().(*types.Slice)
+		if !ok {
+			return Val{}, false
+		}
+		ssl, ok := c.Args[0].(*ssa.Slice)
+		if !ok {
+			return Val{}, false
+		}
+		al, ok := ssl.X.(*ssa.Alloc)
+		if !ok {
+			return Val{}, false
+		}
+		arr := deref(al.Type()).Underlying().(*types.Array)
+		zero := e.zero(sl.Elem())
+		res := zero
+		for j := arr.Len() - 1; j >= 0; j-- {
+			el := e.sliceElem(st, a[0], sl.Elem(), fmt.Sprint(j))
+			res = ite(not(eq(el, zero)), el, res)
+		}
+		return Val{T: e.sc.define("cmpor", e.sortOf(sl.Elem()), res), S: e.sortOf(sl.Elem()), GoT: r}, true
+	}
+	// fmt.Sprintf with a constant format: an uninterpreted function of the format and the (boxed) argument values
+	H["fmt.Sprintf"] = func(e *Engine, fc *fnCtx, st *State, c *ssa.CallCommon, a []Val, r types.Type) (Val, bool) {
+		format, okf := constString(c.Args[0])
+		elems, oke := e.varargsElems(st, c, 1, a[1])
+		if !okf || !oke || len(elems) == 0 || len(elems) > 4 {
+			return e.freshVal("sprintf", r), true
+		}
+		f := fmt.Sprintf("sprintf_%d", len(elems))
+		sorts := []string{"String"}
+		for range elems {
+			sorts = append(sorts, "Int")
+		}
+		e.sc.declareFun(f, sorts, "String")
+		return Val{T: e.sc.define("spf", "String", app(f, append([]string{smtString(format)}, elems...)...)), S: "String", GoT: r}, true
 	}
 	// reflect.DeepEqual: an uninterpreted equivalence relation on the boxed operands
 	H["reflect.DeepEqual"] = func(e *Engine, fc *fnCtx, st *State, c *ssa.CallCommon, a []Val, r types.Type) (Val, bool) {
